@@ -543,7 +543,22 @@ func checkC10Scratch(p *Prog, r *Report, ru *Rule) {
 			for _, x := range valueRoots(st.Val, through) {
 				switch x.Kind {
 				case "field":
-					if mutable(x.Field.Type()) {
+					/* Shared only if the struct it belongs to outlives
+					the call: reached from a parameter, a receiver, another
+					field or a package variable — not a value made, received
+					or returned in this call. */
+					shared := false
+					if nil != x.Base {
+						for _, b := range valueRoots(x.Base, nil) {
+							switch b.Kind {
+							case "param", "global", "field":
+								shared = true
+							}
+						}
+					} else {
+						shared = true
+					}
+					if shared && mutable(x.Field.Type()) {
 						bad = true
 						ru.Bad(c, posOf(st), "the notice is assembled in %s, scratch space shared by every call: two notices built at the same time are spliced into each other, so an address or ID appears cut, doubled or in the wrong notice", x)
 					}
